@@ -124,7 +124,7 @@ func i64(p *int64) int64 {
 func version(v int64) []byte { return bytes.Repeat([]byte{byte(v)}, dtypes.ManifestVersionLength) }
 
 func (w *World) did(a Action) (dtypes.DeploymentID, error) {
-	t, err := w.Addr(a.T)
+	t, err := w.Bech(a.T)
 	if err != nil {
 		return dtypes.DeploymentID{}, err
 	}
@@ -132,7 +132,7 @@ func (w *World) did(a Action) (dtypes.DeploymentID, error) {
 	if err != nil {
 		return dtypes.DeploymentID{}, err
 	}
-	return dtypes.DeploymentID{Owner: t.String(), DSeq: ds}, nil
+	return dtypes.DeploymentID{Owner: t, DSeq: ds}, nil
 }
 
 func (w *World) bidID(a Action) (mtypes.BidID, error) {
@@ -140,11 +140,12 @@ func (w *World) bidID(a Action) (mtypes.BidID, error) {
 	if err != nil {
 		return mtypes.BidID{}, err
 	}
-	p, err := w.Addr(a.P)
+	p, err := w.Bech(a.P)
 	if err != nil {
 		return mtypes.BidID{}, err
 	}
-	return mtypes.MakeBidID(mtypes.MakeOrderID(dtypes.MakeGroupID(did, uint32(a.G)), uint32(a.O)), p), nil
+	oid := mtypes.MakeOrderID(dtypes.MakeGroupID(did, uint32(a.G)), uint32(a.O))
+	return mtypes.BidID{Owner: oid.Owner, DSeq: oid.DSeq, GSeq: oid.GSeq, OSeq: oid.OSeq, Provider: p}, nil
 }
 
 func (w *World) groupSpecs(gs []GroupChoice) ([]dtypes.GroupSpec, error) {
